@@ -9,6 +9,7 @@ require (
 	github.com/eclipse/paho.mqtt.golang v1.5.0
 	github.com/emitter-io/config v1.0.0
 	github.com/emitter-io/emitter v0.0.0
+	github.com/golang/snappy v0.0.4
 	github.com/weaveworks/mesh v0.0.0-20191105120815-58dbcc3e8e63
 )
 
@@ -29,7 +30,6 @@ require (
 	github.com/gogo/protobuf v1.3.2 // indirect
 	github.com/golang/groupcache v0.0.0-20241129210726-2c02b8208cf8 // indirect
 	github.com/golang/protobuf v1.5.4 // indirect
-	github.com/golang/snappy v0.0.4 // indirect
 	github.com/google/flatbuffers v25.2.10+incompatible // indirect
 	github.com/gorilla/websocket v1.5.3 // indirect
 	github.com/kamstrup/intmap v0.5.1 // indirect
